@@ -39,7 +39,7 @@ PINS = {
             r"url_(searchParam|searchParams|urlSearchParams)_.*", r"url_type_(searchParam|searchParams|urlSearchParams|urlSearchParamsIterator|urlSearchParamsIteratorType)",
             r"url_urlModule_(createURLSearchParamsConstructor|buildParamsFromObject|forOf|buildParamsFromIterable|createURLSearchParamsPrototype|"
             r"getURLSearchParamsIteratorPrototype|newURLSearchParamsIterator|newURLSearchParams)", r"url_const_urlSearchParamsIterator.*",
-            r"url_(toUrlSearchParams|toURLSearchParamsIterator)"],
+            r"url_(toUrlSearchParams|toURLSearchParamsIterator|utf16Less|utf16Units)"],
     "C13": [r"url_urlModule_(createURLPrototype|createURLConstructor|parseURL|normalizeURL|fixURL|defineURLAccessorProp)",
             r"url_(valueToURLPort|isDefaultURLPort|isSpecialProtocol|isSpecialNetProtocol|hostWithoutPort|validHostColons|clearURLPort|setURLPort|"
             r"fixRawQuery|cleanPath|validHost|dropDefaultPort|toURL)", r"url_nodeURL_.*", r"url_type_nodeURL", r"url_urlSearchParams_markUpdated",
